@@ -34,6 +34,8 @@ func reasonedDrop(call *ssa.Call) (string, bool) {
 		return "reading from memory: the only error is io.EOF, which is the end of the data and not a failure", true
 	case pkg == "fmt" && strings.HasPrefix(f.Name(), "Fprint") && len(call.Call.Args) > 0 && isMemoryWriter(call.Call.Args[0]):
 		return "formatted write into a strings.Builder / bytes.Buffer cannot fail", true
+	case pkg == "fmt" && strings.HasPrefix(f.Name(), "Fprint") && len(call.Call.Args) > 0 && isStdStreamWriter(call.Call.Args[0]):
+		return "formatted write to a standard stream (through a buffered writer); a closed stream is outside the fault classes of C16", true
 	case pkg == "fmt" && (strings.HasPrefix(f.Name(), "Print")):
 		return "printing to stdout; a closed stdout is outside the fault classes of C16", true
 	case pkg == "os" && recv == "File" && (f.Name() == "WriteString" || f.Name() == "Write"):
@@ -161,7 +163,41 @@ func retErrOperand(r *ssa.Return) ssa.Value {
 	if idx < 0 || idx >= len(r.Results) {
 		return nil
 	}
-	return r.Results[idx]
+	return spilledResult(r, r.Results[idx])
+}
+
+// spilledResult undoes what go/ssa does to the results of a function that has a
+// defer: the value is stored into a local result variable, the deferred calls
+// run, and the return loads it back (store; rundefers; load; return in one
+// block). The value that was stored is what is returned (nothing in the
+// repository recovers, so deferred calls cannot change it: they have no access
+// to unnamed results).
+func spilledResult(r *ssa.Return, v ssa.Value) ssa.Value {
+	ld, ok := v.(*ssa.UnOp)
+	if !ok || ld.Op != token.MUL || ld.Block() != r.Block() {
+		return v
+	}
+	al, ok := ld.X.(*ssa.Alloc)
+	if !ok || al.Heap {
+		return v
+	}
+	// a named result can be changed by a deferred closure; only the spill slot of an anonymous result is undone
+	if al.Comment != "" {
+		return v
+	}
+	instrs := r.Block().Instrs
+scan:
+	for i := instrIndex(ld) - 1; i >= 0; i-- {
+		if st, ok := instrs[i].(*ssa.Store); ok && st.Addr == ssa.Value(al) {
+			return st.Val
+		}
+		switch instrs[i].(type) {
+		case *ssa.RunDefers, *ssa.UnOp, *ssa.Store:
+		default:
+			break scan
+		}
+	}
+	return v
 }
 
 // isFlagStore: store of the constant true into a bool variable.
@@ -420,6 +456,17 @@ func (c *Ctx) RuleErr() (drop, handle *Result) {
 					if !(isFn(f, "errors", "Is") || isFn(f, "errors", "As")) {
 						continue
 					}
+					// errors.Is(err, io.EOF): the end of the input, not a failure; errors.Is(err, errX) with errX a
+					// sentinel the repository defines itself: a classification the repository introduced on
+					// purpose ("not a rule file"). The true side is harmless; the other side still has to
+					// deal with a non-nil error of another kind.
+					if isFn(f, "errors", "Is") && len(call.Call.Args) == 2 && (isIoEOF(call.Call.Args[1]) || isRepoSentinel(call.Call.Args[1])) {
+						for _, br := range condBranches(call) {
+							testIfs[br.iff] = true
+							sentinelTests = append(sentinelTests, condBranch{br.iff, br.neg})
+						}
+						continue
+					}
 					for _, br := range condBranches(call) {
 						testIfs[br.iff] = true
 						// "cond true <=> non-nil": modelled as a test whose true side is the non-nil side
@@ -552,6 +599,13 @@ func (c *Ctx) RuleErr() (drop, handle *Result) {
 					succ = 0
 				}
 				blk := t.br.iff.Block()
+				if len(sentinelTests) > 0 && !reachesWithOtherFailure(blk) {
+					// only reached with a nil error or with the sentinel (the end of the input): the
+					// failures of another kind were dealt with before
+					okTests++
+					hows = append(hows, "other failures are dealt with before this test")
+					continue
+				}
 				target := blk.Succs[succ]
 				mkEnv := func() *pathEnv {
 					env := newEnvAt(blk)
@@ -1350,4 +1404,41 @@ func (c *Ctx) strongFlagLoads(loads []*ssa.UnOp) bool {
 		}
 	}
 	return false
+}
+
+// isIoEOF: the value is io.EOF.
+func isIoEOF(v ssa.Value) bool {
+	ld, ok := stripConv(v).(*ssa.UnOp)
+	if !ok {
+		return false
+	}
+	g, ok := ld.X.(*ssa.Global)
+	return ok && g.Pkg != nil && g.Pkg.Pkg.Path() == "io" && g.Name() == "EOF"
+}
+
+// isStdStreamWriter: os.Stdout / os.Stderr, or a bufio.Writer made from one of them.
+func isStdStreamWriter(v ssa.Value) bool {
+	v = stripConv(v)
+	if u, ok := v.(*ssa.UnOp); ok {
+		if g, ok := u.X.(*ssa.Global); ok && g.Pkg != nil && g.Pkg.Pkg.Path() == "os" && (g.Name() == "Stdout" || g.Name() == "Stderr") {
+			return true
+		}
+	}
+	if call, ok := v.(*ssa.Call); ok {
+		f := staticCallee(&call.Call)
+		if (isFn(f, "bufio", "NewWriter") || isFn(f, "bufio", "NewWriterSize")) && len(call.Call.Args) > 0 {
+			return isStdStreamWriter(call.Call.Args[0])
+		}
+	}
+	return false
+}
+
+// isRepoSentinel: a package-level error variable of the repository.
+func isRepoSentinel(v ssa.Value) bool {
+	ld, ok := stripConv(v).(*ssa.UnOp)
+	if !ok {
+		return false
+	}
+	g, ok := ld.X.(*ssa.Global)
+	return ok && g.Pkg != nil && load.InModule(g.Pkg.Pkg.Path()) && isErrorType(derefType(g.Type()))
 }
